@@ -21,19 +21,40 @@ def bucket_count(repo):
     return int(m.group(1))
 
 
+ALLOC_DEFS = ["-Dcalloc=fxh_calloc", "-Dmalloc=fxh_malloc"]      # allocation scheduling points (futex_sched.c), code under test only
+
+
 def build(repo_copy, workdir, asan=True, cc="gcc", name="futex_sched"):
     exe = os.path.join(workdir, name)
     srcs = [os.path.join(HERE, "futex_sched.c"), os.path.join(SCHED, "sched.c"), os.path.join(SCHED, "sched_explore.c")]
-    srcs += [os.path.join(repo_copy, "futex", f) for f in ("futex.c", "list.c", "map.c")]
-    cmd = [cc, "-O1", "-g", "-w", "-DWASM_THREADS_PTHREADS", "-DHAS_UNISTD=1"]
+    flags = [cc, "-O1", "-g", "-w", "-DWASM_THREADS_PTHREADS", "-DHAS_UNISTD=1"]
     if asan:
-        cmd += ["-fsanitize=address,undefined", "-fno-omit-frame-pointer"]
-    cmd += ["-I", SCHED, "-I", os.path.join(repo_copy, "w2c2"), "-I", os.path.join(repo_copy, "futex")]
-    cmd += srcs + wrap_flags() + ["-o", exe, "-lpthread", "-lm"]
+        flags += ["-fsanitize=address,undefined", "-fno-omit-frame-pointer"]
+    flags += ["-I", SCHED, "-I", os.path.join(repo_copy, "w2c2"), "-I", os.path.join(repo_copy, "futex")]
+    objs = []
+    for f in ("futex.c", "list.c", "map.c"):
+        o = os.path.join(workdir, name + "_" + f[:-2] + ".o")
+        p = subprocess.run(flags + ALLOC_DEFS + ["-c", os.path.join(repo_copy, "futex", f), "-o", o],
+                           stdout=subprocess.PIPE, stderr=subprocess.PIPE, text=True)
+        if p.returncode != 0:
+            raise RuntimeError("futex_sched build failed:\n" + p.stderr[-3000:])
+        objs.append(o)
+    cmd = flags + srcs + objs + wrap_flags() + ["-o", exe, "-lpthread", "-lm"]
     p = subprocess.run(cmd, stdout=subprocess.PIPE, stderr=subprocess.PIPE, text=True)
     if p.returncode != 0:
         raise RuntimeError("futex_sched build failed:\n" + p.stderr[-3000:])
+    for o in objs:
+        if "fxh_calloc" not in subprocess.run(["nm", "-u", o], stdout=subprocess.PIPE, text=True).stdout and o.endswith("futex.o"):
+            raise RuntimeError("futex_sched build: futex.c's calloc calls were not routed through the allocation scheduling point")
     return exe
+
+
+def strip_alloc(r):
+    """The executed schedule of reply `r` without the tokens that resumed a thread from an allocation point (`al=`)."""
+    toks = r.get("sched", "").split(",")
+    al = r.get("al", "-")
+    drop = {int(x) for x in al.split(".")} if al not in ("-", "") else set()
+    return ",".join(t for i, t in enumerate(toks) if i not in drop)
 
 
 ENV = {"ASAN_OPTIONS": "detect_leaks=0:abort_on_error=0:exitcode=66:quarantine_size_mb=8", "UBSAN_OPTIONS": "halt_on_error=1:exitcode=67"}
